@@ -799,7 +799,9 @@ def c04_battery(binary):
     combos = [("UTC", ["remove"], ["--transform", "cat"], False), ("UTC", ["link"], ["--transform", "cat"], False), ("UTC", ["remove"], [], True)] + combos
     # the report is made in one zone and processed in another (POSIX zone strings: AAA-9 is UTC+9, BBB+5 is UTC-5)
     combos = [(("AAA-9", "UTC"), ["remove"], [], False), (("AAA-2", "UTC"), ["link"], [], False), (("UTC", "BBB+5"), ["remove"], [], False),
-              (("AAA-3", "AAA-1"), ["link", "--soft"], [], False)] + combos
+              (("AAA-3", "AAA-1"), ["link", "--soft"], [], False),
+              # a UTC offset that is not a whole number of minutes (the report header records minutes only)
+              (("XXX-0:19:29", "XXX-0:19:29"), ["remove"], [], False), (("XXX+5:00:40", "UTC"), ["link"], [], False)] + combos
     for tz, op, gargs, align in combos:
         tz_group, tz_dedupe = tz if isinstance(tz, tuple) else (tz, tz)
         if True:
